@@ -884,7 +884,7 @@ func (x *Exec) initGhost(st *State, t types.Type, obj string) {
 	}
 	if n := originNamed(t); n != nil {
 		for _, g := range x.P.ghosts {
-			if g.Recv != n.Obj().Name() || (n.Obj().Pkg() != nil && g.Pkg != n.Obj().Pkg().Path()) {
+			if x.P.ghostField(t, g.Name) != g {
 				continue
 			}
 			tctx := x.P.typeCtxForGhost(g, t, nil)
